@@ -875,6 +875,51 @@ pub fn gen_jobs(vs: u64, tier: &str, profile: &str) -> Vec<Job> {
             j.consumer = CONSUMERS[rng.usize_below(CONSUMERS.len())].to_string();
         }
     }
+    // an empty range seated BEHIND a player whose every combo holds the first turn
+    // or river card of the scope (the very first deal is blocked before the empty
+    // seat is looked at), and in front of one; own PRNG stream, appended last so
+    // the jobs above are what they were
+    {
+        let mut rng = Rng::new(run_seed(vs, "C08", profile, 1));
+        for np in 2..=4usize {
+            for empty_seat in 0..np {
+                for by_river in [false, true] {
+                    let flop = gen_flop(&mut rng);
+                    let deck = deck_for(&flop);
+                    let from = if rng.chance(1, 2) { FIRST } else { pos_from_index(rng.usize_below(NPOS - 1)) };
+                    let bc = if by_river { deck[from.1 as usize] } else { deck[from.0 as usize] };
+                    let blocker_seat = if empty_seat == 0 { rng.range(1, np as u64 - 1) as usize } else { rng.usize_below(empty_seat) };
+                    let players: Vec<RangeRecipe> = (0..np)
+                        .map(|i| {
+                            if i == empty_seat {
+                                RangeRecipe::simple(vec![])
+                            } else if i == blocker_seat {
+                                let mut e: Vec<(u8, u8, u32)> = vec![];
+                                for _ in 0..rng.range(1, 3) {
+                                    let o = deck[rng.usize_below(49)];
+                                    if o != bc && !e.iter().any(|x| x.0 == o || x.1 == o) {
+                                        e.push((o.min(bc), o.max(bc), w1()));
+                                    }
+                                }
+                                if e.is_empty() {
+                                    let o = if deck[0] != bc { deck[0] } else { deck[1] };
+                                    e.push((o.min(bc), o.max(bc), w1()));
+                                }
+                                RangeRecipe::simple(e)
+                            } else {
+                                let k2 = rng_small(&mut rng);
+                                RangeRecipe::simple(sized_range(&mut rng, k2))
+                            }
+                        })
+                        .collect();
+                    let scope = if from == FIRST && rng.chance(1, 2) { None } else { Some((from, TERMINAL)) };
+                    let id = jobs.len();
+                    let consumer = if rng.chance(1, 2) { "next".to_string() } else { CONSUMERS[rng.usize_below(CONSUMERS.len())].to_string() };
+                    jobs.push(Job { id, class: "empty_behind_blocked".to_string(), scen: Scenario { flop, players }, scope, stack: MIB2, consumer, prelude: vec![] });
+                }
+            }
+        }
+    }
     jobs
 }
 
